@@ -1,4 +1,4 @@
-"""Byte-level fuzz targets (coverage-guided, Atheris / libFuzzer) for C12, C03, C01, C13, C16 and C19.
+"""Byte-level fuzz targets (coverage-guided, Atheris / libFuzzer) for C12, C03, C01, C13, C16, C19, C08, C17 and C18.
 
 Each target decodes the fuzzer's bytes into a structured case (FuzzedDataProvider-like layer written
 here so that the same decoding is used by the replay path without atheris) and evaluates the SAME
@@ -275,5 +275,187 @@ def c13_target(data: bytes) -> None:
         raise Violation(res.failures[0].bucket + ": " + res.failures[0].msg[:300])
 
 
-TARGETS = {"C12": c12_target, "C03": c03_target, "C01": c01_target, "C16": c16_target, "C19": c19_target, "C13": c13_target}
-CASES = {"C12": c12_case, "C03": c03_case, "C01": c01_case, "C16": c16_case, "C19": c19_case, "C13": c13_case}
+# ------------------------------------------------------------------------------------------
+# C08 (route tables x paths), C17 (operation histories on a multi-value mapping), C18 (URL replace chains)
+
+_C08_LITS = ["/", "/a", "/api", "/a.b", "/x+", "-", ".", "/v", "_", "/é", ".json", "/(", "/$", "/a|b", "/[x]", "/^"]
+_C08_TYPES = ["str", "int", "decimal", "uuid", "date", "any", None]
+_C08_PIECES = ["/", "a", "api", "a.b", "aXb", "v", "12", "007", "1.5", "1.", ".5", "1x2", "2021-03-07", "2021-13-45", "2021-3-7", "0000-00-00",
+               "00000000-0000-0000-0000-000000000000", "A0000000-0000-0000-0000-00000000000A", "-", ".", "é", "\n", "x+", ".json", "%41", "_", "(", "$", "a|b", "[x]", "^",
+               "٣", "３", " ", "\t", "//"]
+
+
+def c08_case(data: bytes) -> Dict[str, Any]:
+    r = Reader(data)
+    routes = []
+    for _ in range(1 + r.byte() % 4):
+        toks: List[Any] = [["lit", r.pick(["/", "/a", "/api/", "/a.b/", "/v", "/x+/"])]]
+        pc = 0
+        for _ in range(r.byte() % 4):
+            if r.byte() % 3 == 0:
+                lit = r.pick(_C08_LITS)
+                if toks[-1][0] == "lit":
+                    toks[-1] = ["lit", toks[-1][1] + lit]
+                else:
+                    toks.append(["lit", lit])
+            else:
+                if toks[-1][0] == "p":
+                    toks.append(["lit", r.pick(["/", "-", ".", "/x/"])])  # adjacent placeholders are left to the Hypothesis generator
+                toks.append(["p", f"p{pc}", r.pick(_C08_TYPES)])
+                pc += 1
+        routes.append(toks)
+    path = ""
+    for _ in range(r.byte() % 9):
+        if r.byte() % 4 == 0:
+            path += r.chunk(6).decode("utf-8", "ignore").replace("{", "").replace("}", "")
+        else:
+            path += r.pick(_C08_PIECES)
+    return {"routes": routes, "path": path}
+
+
+def c08_target(data: bytes) -> None:
+    from checks import C08
+
+    res = C08.oracle_table(c08_case(data))
+    if res.failures:
+        raise Violation(res.failures[0].bucket + ": " + res.failures[0].msg[:300])
+
+
+def c17_case(data: bytes) -> Dict[str, Any]:
+    from checks import C17
+
+    r = Reader(data)
+    keys, vals = C17.K4, C17.V4
+
+    def pair():
+        return [r.pick(keys), r.pick(vals)]
+
+    def pairs(n):
+        return [pair() for _ in range(r.byte() % (n + 1))]
+
+    form = r.pick(["none", "pairs", "iter", "dict", "multi"] + list(C17.FORMS))
+    init = [] if form == "none" else pairs(6)
+    ops: List[Any] = []
+    for _ in range(r.byte() % 40):
+        k = r.byte() % 23
+        key = r.pick(keys)
+        if k == 0:
+            ops.append(["set", key, r.pick(vals)])
+        elif k in (1, 2):
+            ops.append(["append", key, r.pick(vals)])
+        elif k == 3:
+            ops.append(["setdefault", key, r.pick(vals)])
+        elif k == 4:
+            ops.append(["del", key])
+        elif k == 5:
+            ops.append(["poplist", key])
+        elif k == 6:
+            ops.append(["pop", key])
+        elif k == 7:
+            ops.append(["popd", key])
+        elif k == 8:
+            ops.append(["setlist", key, [r.pick(vals) for _ in range(r.byte() % 4)]])
+        elif k == 9:
+            ops.append(["popitem"])
+        elif k == 10:
+            ops.append(["clear"])
+        elif k == 11:
+            ops.append(["snapshot"])
+        elif k == 12:
+            ops.append(["mutate_view", key])
+        elif k == 13:
+            ops.append(["update_dict", pairs(3)])
+        elif k == 14:
+            ops.append(["update_pairs", pairs(4)])
+        elif k == 15:
+            ops.append(["update_multi", pairs(4)])
+        elif k == 16:
+            ops.append(["update_kw", pairs(2)])
+        elif k == 17:
+            ops.append(["popn", key])
+        elif k == 18:
+            ops.append(["setdefault0", key])
+        elif k == 19:
+            ops.append(["update_iter", pairs(4)])
+        elif k == 20:
+            ops.append(["update_dict_kw", pairs(2), pairs(2)])
+        elif k == 21:
+            ops.append(["update_self"])
+        else:
+            ops.append(["setlist", key, [r.pick(vals) for _ in range(r.byte() % 4)], "tuple"])
+    return {"form": form, "init": init, "ops": ops, "keys": list(keys) + ["zz"]}
+
+
+def c17_target(data: bytes) -> None:
+    from checks import C17
+
+    res = C17.oracle(c17_case(data))
+    if res.failures:
+        raise Violation(res.failures[0].bucket + ": " + res.failures[0].msg[:300])
+
+
+_C18_UNRES = "abcXYZ019-._~"
+_C18_HOSTS = ["example.org", "localhost", "a.b.c", "EXAMPLE.com", "127.0.0.1", "10.0.0.5", "xn--bcher-kva.example", "[::1]", "[fe80::1]", "[2001:db8::8a2e:370:7334]", "[fe::2]"]
+_C18_PORTS = [None, 80, 443, 8000, 8080, 1, 65535, 8443, 0]
+_C18_PWS = ["p:q", "p@ss", "a:b@c", "********", "x", "secret", "example", "path", ""]
+
+
+def c18_case(data: bytes) -> Dict[str, Any]:
+    from checks import C18
+
+    r = Reader(data)
+
+    def unres():
+        return "".join(_C18_UNRES[b % len(_C18_UNRES)] for b in r.take(1 + r.byte() % 6)) or "u"
+
+    def pw(allow_empty=True):
+        v = r.pick(_C18_PWS) if r.byte() % 2 else unres()
+        return v if (v or allow_empty) else "x"
+
+    user = unres() if r.byte() % 2 else None
+    base = {
+        "scheme": r.pick(["http", "https", "ws", "ftp"]),
+        "username": user,
+        "password": (pw() if r.byte() % 2 else None) if user is not None else None,
+        "host": r.pick(_C18_HOSTS),
+        "port": r.pick(_C18_PORTS),
+        "path": r.pick(C18.BASE_PATHS),
+        "query": r.pick(C18.BASE_QUERIES),
+        "fragment": r.pick(C18.BASE_FRAGMENTS),
+    }
+
+    def changes(maxn):
+        out: Dict[str, Any] = {}
+        for _ in range(1 + r.byte() % maxn):
+            k = r.pick(["scheme", "path", "query", "fragment", "username", "password", "host", "port"])
+            if k in C18.NEW_VALUES:
+                out[k] = r.pick(C18.NEW_VALUES[k])
+            elif k == "username":
+                out[k] = unres() if r.byte() % 3 else None
+            elif k == "password":
+                out[k] = pw(allow_empty=False) if r.byte() % 3 else None
+            elif k == "host":
+                out[k] = r.pick(_C18_HOSTS)
+            else:
+                out[k] = r.pick(_C18_PORTS)
+        return out
+
+    case: Dict[str, Any] = {"base": base, "changes": changes(5), "ctor": r.byte() % 2 == 0}
+    n_then = r.byte() % 3
+    if n_then:
+        case["then"] = [changes(2) for _ in range(n_then)]
+    return case
+
+
+def c18_target(data: bytes) -> None:
+    from checks import C18
+
+    res = C18.oracle_replace(c18_case(data))
+    if res.failures:
+        raise Violation(res.failures[0].bucket + ": " + res.failures[0].msg[:300])
+
+
+TARGETS = {"C12": c12_target, "C03": c03_target, "C01": c01_target, "C16": c16_target, "C19": c19_target, "C13": c13_target,
+           "C08": c08_target, "C17": c17_target, "C18": c18_target}
+CASES = {"C12": c12_case, "C03": c03_case, "C01": c01_case, "C16": c16_case, "C19": c19_case, "C13": c13_case,
+         "C08": c08_case, "C17": c17_case, "C18": c18_case}
